@@ -16,6 +16,10 @@
                         from_layer, mutate through set_char,       mut_justify_left, mut_justify_right, mut_center,
                         from_layer, push_plain_undo);              mut_flip_x, mut_flip_y; api_erase_selection
                         erase_selection
+   layer_operations.rs  make_layer_transparent                    api_make_layer_transparent (the same frame over the whole layer)
+   edit_operations.rs   center_line, justify_line_left/right,      api_center_line, api_justify_line_left/right, api_erase_row,
+                        erase_row, erase_row_to_start/end,         api_erase_row_to_start/end, api_erase_column,
+                        erase_column, erase_column_to_start/end    api_erase_column_to_start/end (line_op / line_erase)
    EditState::set_current_layer, set_mirror_mode, caret position   ctl_cur, ctl_mirror, ctl_caret (not edits: nothing is pushed)
 
    flip_x / flip_y take the per-font-page character maps (generate_flipx_table / generate_flipy_table, computed from glyph
@@ -223,17 +227,20 @@ Definition mut_flip_y (ftab : N -> option (N -> N)) (L : layer) (a : rect) : res
 
 (* the frame shared by justify_left/right, center, flip_x/y (and, unmodelled, scroll_area_*, make_layer_transparent):
    guard; area; old = from_layer; mutate the current layer; new = from_layer; push_plain_undo(UndoLayerChange) *)
-Definition area_body (mutate : layer -> rect -> res layer) (e : E) : res E :=
+Definition area_body_gen (areaf : estate -> layer -> rect) (mutate : layer -> rect -> res layer) (e : E) : res E :=
   match get_cur_layer (cur e) with
   | None => Err 3
   | Some (i, L) =>
-    let a := get_area (sel (cur e)) L in
+    let a := areaf (cur e) L in
     do old <- from_layer L a;
     do L' <- mutate L a;
     do new <- from_layer L' a;
     let '(ax, ay, _, _) := a in
     Ok (plain (ULayerChange i ax ay old new) e (upd_layer (cur e) i (fun _ => L')))
   end.
+
+Definition area_body (mutate : layer -> rect -> res layer) : E -> res E :=
+  area_body_gen (fun s L => get_area (sel s) L) mutate.
 
 Definition api_area_op (mutate : layer -> rect -> res layer) : E -> res E := guarded (area_body mutate).
 
@@ -269,6 +276,54 @@ Definition api_erase_selection (e : E) : res E :=
         api_clear_selection (plain (ULayerChange i 0 0 (snap_of_layer L) (snap_of_layer L')) e (upd_layer (cur e) i (fun _ => L')))
       end) e
   end.
+
+(* layer_operations.rs make_layer_transparent: the same frame over the whole layer, whatever is selected
+   (`for x in 0..w { for y in 0..h {`) *)
+Definition mut_transparent (L : layer) (a : rect) : res layer :=
+  let w := l_w L in let h := l_h L in      (* set_char never changes the size *)
+  Ok (fold_left (fun L x => fold_left (fun L y =>
+        if is_transparent (get_char L x y) then l_set_char L x y invisible else L) (zrange h) L) (zrange w) L).
+
+Definition api_make_layer_transparent : E -> res E :=
+  guarded (fun e => do _ <- get_current_layer (cur e); area_body_gen (fun _ L => (0, 0, l_w L, l_h L)) mut_transparent e).
+
+(* edit_operations.rs: the wrappers that select one row / column relative to the caret, run an operation, and drop the
+   selection again.  Rectangle::from_coords asserts x1 <= x2 && y1 <= y2 (panic site 30). *)
+Definition from_coords (x1 y1 x2 y2 : Z) : res selection :=
+  if (x1 <=? x2) && (y1 <=? y2) then Ok (mkSel x1 y1 x2 y2 0) else Panic 30.
+
+Definition cur_offset (s : estate) : Z * Z :=
+  match get_cur_layer s with Some (_, L) => (l_ox L, l_oy L) | None => (0, 0) end.
+
+Definition BIG : Z := 1000000.
+
+(* guard { set_selection(r)?; let res = op(); clear_selection()?; res } *)
+Definition line_op (r : estate -> res selection) (op : E -> res E) : E -> res E :=
+  fun e => let sl := r (cur e) in
+  guarded (fun e1 => do s <- sl; do e2 <- api_set_selection s e1; do e3 <- op e2; api_clear_selection e3) e.
+
+(* guard { set_selection(r)?; erase_selection() } *)
+Definition line_erase (r : estate -> res selection) : E -> res E :=
+  fun e => let sl := r (cur e) in
+  guarded (fun e1 => do s <- sl; do e2 <- api_set_selection s e1; api_erase_selection e2) e.
+
+Definition row_sel (s : estate) : res selection :=
+  let y := caret_y s + snd (cur_offset s) in from_coords (- BIG) y BIG (y + 1).
+
+Definition api_center_line : E -> res E := line_op row_sel api_center.
+Definition api_justify_line_left : E -> res E := line_op row_sel api_justify_left.
+Definition api_justify_line_right : E -> res E := line_op row_sel api_justify_right.
+Definition api_erase_row : E -> res E := line_erase row_sel.
+Definition api_erase_row_to_start : E -> res E :=
+  line_erase (fun s => let '(ox, oy) := cur_offset s in from_coords (- BIG) (caret_y s + oy) (caret_x s + ox) (caret_y s + oy + 1)).
+Definition api_erase_row_to_end : E -> res E :=
+  line_erase (fun s => let '(ox, oy) := cur_offset s in from_coords (caret_x s + ox) (caret_y s + oy) BIG (caret_y s + oy + 1)).
+Definition api_erase_column : E -> res E :=
+  line_erase (fun s => let '(ox, _) := cur_offset s in from_coords (caret_x s + ox) (- BIG) (caret_x s + ox) BIG).
+Definition api_erase_column_to_start : E -> res E :=
+  line_erase (fun s => let '(ox, oy) := cur_offset s in from_coords (caret_x s + ox) (- BIG) (caret_x s + ox) (caret_y s + oy)).
+Definition api_erase_column_to_end : E -> res E :=
+  line_erase (fun s => let '(ox, oy) := cur_offset s in from_coords (caret_x s + ox) (caret_y s + oy) (caret_x s + ox) BIG).
 
 (* ------------------------------------------------------------------ controls (no undo record) *)
 Definition ctl_cur (n : nat) (e : E) : res E :=
